@@ -159,7 +159,15 @@ func concInstances(seed int64) []instance {
 		}
 		return d
 	}
+	// one configuration value (and one *Properties) shared by two writers: creating a writer
+	// must not leave anything behind in the caller's configuration that changes the next one
+	sharedProps := &lzma.Properties{LC: 2, LP: 1, PB: 3}
+	sharedXZ := xz.WriterConfig{Properties: sharedProps, DictCap: 65536, CheckSum: xz.CRC32, BlockSize: 11000}
+	sharedL2 := lzma.Writer2Config{Properties: sharedProps, DictCap: 65536}
 	return []instance{
+		mkWriter("xz-writer-shared-config-1", func(w io.Writer) (wcl, error) { return sharedXZ.NewWriter(w) }, text, false),
+		mkWriter("xz-writer-shared-config-2", func(w io.Writer) (wcl, error) { return sharedXZ.NewWriter(w) }, text, false),
+		mkWriter("lzma2-writer-shared-props", func(w io.Writer) (wcl, error) { return sharedL2.NewWriter2(w) }, rnd, true),
 		mkWriter("xz-writer-raw-then-text", func(w io.Writer) (wcl, error) {
 			return XZCfg{LC: 3, PB: 2, DictCap: 65536, BufSize: 4096, Check: 4}.lib().NewWriter(w)
 		}, rawThenText, false),
@@ -369,6 +377,44 @@ func C14(c *hx.Ctx) {
 			c.Violation(map[string]string{"kind": "nondeterministic-output", "instance": in.name}, fmt.Sprintf("%s: two sequential runs differ: %s vs %s", in.name, seq[i], r2.result()), map[string]any{"instance": in.name})
 		}
 	}
+	// determinism also means: a defaulted configuration field and the same value written out
+	// give the same bytes, and two writers made from one configuration value agree
+	{
+		data := MakeData("alternating", 40000, c.Seed+77)
+		enc := func(f func(w io.Writer) (wcl, error)) string {
+			var b bytes.Buffer
+			w, err := f(&b)
+			if err != nil {
+				return "error: " + err.Error()
+			}
+			w.Write(data)
+			w.Close()
+			return sum(b.Bytes()) + fmt.Sprint(b.Len())
+		}
+		pairs := []struct {
+			name string
+			a, b func(w io.Writer) (wcl, error)
+		}{
+			{"xz.WriterConfig{} vs explicit defaults", func(w io.Writer) (wcl, error) { return xz.WriterConfig{}.NewWriter(w) },
+				func(w io.Writer) (wcl, error) {
+					return xz.WriterConfig{Properties: &lzma.Properties{LC: 3, LP: 0, PB: 2}, DictCap: 8 << 20, BufSize: 4096, CheckSum: xz.CRC64, Matcher: lzma.HashTable4}.NewWriter(w)
+				}},
+			{"lzma.Writer2Config{} vs explicit defaults", func(w io.Writer) (wcl, error) { return lzma.Writer2Config{}.NewWriter2(w) },
+				func(w io.Writer) (wcl, error) {
+					return lzma.Writer2Config{Properties: &lzma.Properties{LC: 3, LP: 0, PB: 2}, DictCap: 8 << 20, BufSize: 4096}.NewWriter2(w)
+				}},
+			{"lzma.WriterConfig{} vs explicit defaults", func(w io.Writer) (wcl, error) { return lzma.WriterConfig{}.NewWriter(w) },
+				func(w io.Writer) (wcl, error) {
+					return lzma.WriterConfig{Properties: &lzma.Properties{LC: 3, LP: 0, PB: 2}, DictCap: 8 << 20, BufSize: 4096, EOSMarker: true}.NewWriter(w)
+				}},
+		}
+		for _, p := range pairs {
+			c.Count(1, 1)
+			if x, y := enc(p.a), enc(p.b); x != y {
+				c.Violation(map[string]string{"kind": "defaults-change-output", "pair": p.name}, fmt.Sprintf("%s: outputs differ (%s vs %s)", p.name, x, y), map[string]any{"pair": p.name})
+			}
+		}
+	}
 	pairs := gen("<<4, 4>>")
 	if len(pairs) == 0 {
 		return
@@ -383,7 +429,10 @@ func C14(c *hx.Ctx) {
 			if !c.Thorough() && (a+b)%2 == 1 && a != b {
 				continue // quick tier: half of the pairs
 			}
-			for _, s := range pairs {
+			for si, s := range pairs {
+				if !c.Thorough() && (si+a+b)%3 != 0 {
+					continue // quick tier: a third of the 70 interleavings per pair, rotating
+				}
 				jobs = append(jobs, job{[]int{a, b}, s})
 			}
 		}
